@@ -240,7 +240,11 @@ class World(object):
             self.policy.setdefault((r['src'], r['dst'], bytes(req_payload(i, r['len']))), []).append(r)
         self.requests = [dict(r, no=i) for i, r in enumerate(spec.get('requests') or [])]
         for r in self.requests:
+            if r.get('t', 0) == -1:
+                continue        # submitted only from a confirmation callback (chains)
             heapq.heappush(self.delayed, (r.get('t', 0) / 1000.0, next(self.seq), 'submit', r))
+        self.chains = [dict(c) for c in spec.get('chains') or []]
+        self.in_chain = False
         for inj in spec.get('inject') or []:
             if 'after' not in inj:
                 heapq.heappush(self.delayed, (inj['t'] / 1000.0, next(self.seq), 'inject', inj))
@@ -367,6 +371,17 @@ class World(object):
         h = hdr_of(apdu)
         data = bytes(apdu.pduData) if apdu.pduData is not None else b''
         t.ev('conf', ms(NOW[0]), addr, src, h['type'], h['invoke'], data, h['reason'])
+        # request chaining: the confirmation callback submits the next request at once (each chain entry is used once)
+        if not self.in_chain:
+            for c in self.chains:
+                if c['node'] == addr and c['peer'] == src and c['invoke'] == h['invoke']:
+                    self.chains.remove(c)
+                    self.in_chain = True
+                    try:
+                        self.submit(self.requests[c['no']])
+                    finally:
+                        self.in_chain = False
+                    break
 
     def submit(self, r):
         from bacpypes.apdu import ConfirmedRequestPDU
@@ -459,6 +474,17 @@ class World(object):
                                 tr.state, ms(tr.taskTime) if tr.isScheduled else -1))
         return tuple(out)
 
+    def records(self):
+        """what every node's DeviceInfoCache holds at the end: {(node, peer): (maxApdu, segmentationSupported)}"""
+        out = {}
+        for addr, n in self.nodes.items():
+            if n['cfg'].get('raw') or 'cache' not in n:
+                continue
+            for key, di in n['cache'].cache.items():
+                if hasattr(key, 'addrAddr'):
+                    out[(addr, addr_no(key))] = (di.maxApduLengthAccepted, di.segmentationSupported)
+        return out
+
     def orphan_timers(self):
         """scheduled timers of transactions that are in no transaction list any more"""
         listed = set()
@@ -530,7 +556,7 @@ class World(object):
         t.steps = steps
         t.end_t = ms(NOW[0])
         t.residue = {'snapshot': self.snapshot(), 'tasks': len(tm.tasks), 'inflight': len(self.inflight),
-                     'delayed': len(self.delayed)}
+                     'delayed': len(self.delayed), 'records': self.records()}
         return t
 
     def owner_of(self, task):
@@ -977,10 +1003,14 @@ def check_c11(tr):
     prev = ()
     cur_rx = None
     touched_conf = []
+    step_submits = []
     for pos, e in enumerate(tr.events):
         if e[0] == 'rx':
             cur_rx = e
             touched_conf = []
+            step_submits = []
+        elif e[0] == 'submit' and cur_rx is not None:
+            step_submits.append((e[2], 'c', e[3], e[5]))      # the application's own doing inside this step (request chaining)
         elif e[0] in ('submit', 'fire', 'respond'):
             cur_rx = None
         elif e[0] in ('conf', 'ind') and cur_rx is not None:
@@ -1001,10 +1031,12 @@ def check_c11(tr):
                     before = {(a, ro, p, i): (st, arm) for (a, ro, p, i, st, arm) in prev}
                     after = {(a, ro, p, i): (st, arm) for (a, ro, p, i, st, arm) in snap}
                     for k in set(before) | set(after):
-                        if before.get(k) != after.get(k) and k != (dst, role, src, inv):
+                        if before.get(k) != after.get(k) and k != (dst, role, src, inv) and k not in step_submits:
                             # the server application may answer inside the same step: that changes only the same key too
                             f.append({'kind': 'pdu-touched-other-transaction', 'pdu': [ty, src, inv], 'touched': list(k),
                                       'before': before.get(k), 'after': after.get(k)})
+                    if client_side and sum(1 for c in touched_conf if c[0] == 'conf' and (c[3], c[5]) == (src, inv)) > 1:
+                        f.append({'kind': 'one-reply-completed-two-requests', 'pdu': [ty, src, inv]})
                     for c in touched_conf:
                         if c[0] == 'conf' and (c[3], c[5]) != (src, inv):
                             f.append({'kind': 'pdu-completed-other-request', 'pdu': [ty, src, inv], 'outcome_for': [c[3], c[5]]})
@@ -1180,6 +1212,17 @@ def check_c12(tr):
                 pw = first_win.get((src, dst, h['invoke'], tty))
                 if pw is not None and h['win'] > pw:
                     f.append({'kind': 'window-larger-than-proposed', 'frame': fr['idx'], 'win': h['win'], 'proposed': pw})
+    # the record of a peer says what its latest I-Am said, unless the peer itself set segmented-response-accepted in a request
+    said_sa = set()
+    for e in tr.events:
+        if e[0] == 'rx':
+            h = _rx_hdr(tr, e[2])
+            if h and h['type'] == 0 and h['sa'] == 1:
+                said_sa.add((e[4], e[3]))
+    for (node, peer), (ma, sg) in sorted((tr.residue.get('records') or {}).items()):
+        st = knowledge_states(tr, node, peer, len(tr.events), len(tr.events))[-1]
+        if st is not None and (node, peer) not in said_sa and sg != st.get('seg'):
+            f.append({'kind': 'record-changed-without-iam', 'node': node, 'peer': peer, 'record': sg, 'latest_iam': st.get('seg')})
     # "when a message cannot be sent within those limits the requester is told so with an abort instead"
     if not tr.livelock:
         res, unmatched, sub = request_outcomes(tr)
@@ -1385,6 +1428,98 @@ def gen_wrap(rng):
         t += 125
     nodes[0]['apduTimeout'] = 250000
     return {'nodes': nodes, 'requests': reqs}
+
+
+def gen_chained(rng):
+    """re-entrant client application: its confirmation callback submits the next request at once, to the same peer and with
+    the SAME application-chosen invoke id, while other transactions created later (any peer) are still outstanding"""
+    cmax = rng.choice([50, 128])
+    mk = lambda a: node_cfg(a, maxApdu=cmax, window=2, retries=rng.choice([0, 1]), apduTimeout=rng.choice([1000, 3000]), segTimeout=500, appTimeout=6000)
+    nodes = [mk(1), mk(10), mk(11)]
+    inv = rng.choice([3, 7, 200])
+    kind = lambda: rng.choice([['simple'], ['complex', rng.choice([4, cmax + 9])], ['error', 4]])
+    reqs = [{'t': 0, 'src': 1, 'dst': 10, 'len': rng.choice([3, 9]), 'service': 12, 'resp': kind(), 'resp_delay': rng.choice([250, 500]), 'invoke': inv}]
+    for k in range(rng.choice([1, 2, 3])):
+        # created after the first, still outstanding when the first is answered
+        r = {'t': rng.choice([0, 125]), 'src': 1, 'dst': rng.choice([10, 11]), 'len': 4, 'service': 12, 'resp': kind(), 'resp_delay': rng.choice([2000, 4000])}
+        if rng.random() < 0.5:
+            r['invoke'] = rng.choice([i for i in (1, 2, 9, 201) if i != inv])
+        reqs.append(r)
+    chains = []
+    prev_inv, prev_peer = inv, 10
+    for k in range(rng.choice([1, 1, 2])):
+        same = rng.random() < 0.8
+        nr = {'t': -1, 'src': 1, 'dst': 10 if same or rng.random() < 0.5 else 11, 'len': rng.choice([5, cmax + 3]), 'service': 12, 'resp': kind(),
+              'resp_delay': rng.choice([0, 250]), 'invoke': prev_inv if same else rng.choice([prev_inv, None, 77])}
+        reqs.append(nr)
+        chains.append({'node': 1, 'peer': prev_peer, 'invoke': prev_inv, 'no': len(reqs) - 1})
+        if nr['invoke'] is None:
+            break
+        prev_inv, prev_peer = nr['invoke'], nr['dst']
+    spec = {'nodes': nodes, 'requests': reqs, 'chains': chains}
+    if rng.random() < 0.3:
+        n = len(run_scenario(spec).frames)
+        spec['faults'] = rand_faults(rng, n, 1)
+    return spec
+
+
+def gen_wrap_run(rng):
+    """the allocation cursor comes back to a RUN of live ids that straddles 255 -> 0: requests number 254.. (ids 255, 0, 1 ..) or
+    253.. (254, 255, 0) stay outstanding, 256 more requests to the same peer bring the cursor round again"""
+    nodes = [node_cfg(1, retries=0, apduTimeout=250000), node_cfg(10, appTimeout=250000)]
+    run = rng.choice([[254, 255], [254, 255], [254, 255, 256], [253, 254, 255], [253, 254, 255], [253, 254, 255, 256], [255, 256], [254, 256]])
+    extra = set(rng.sample(range(0, 250), rng.choice([0, 0, 2])))
+    reqs = []
+    t = 0
+    for i in range(256 + 256 + rng.choice([3, 6])):
+        slow = (i in run) or (i in extra)
+        reqs.append({'t': t, 'src': 1, 'dst': 10, 'len': 3, 'service': 12, 'resp': ['simple'], 'resp_delay': 200000 if slow else 0})
+        t += 125
+    return {'nodes': nodes, 'requests': reqs}
+
+
+def gen_record_maxsegs(rng):
+    """the server's record of the client carries a max-segments-accepted figure (read from the device object, any number)
+    that differs from the limit the request itself carries (2, 4, 8, ... by encoding): answers needing segment counts between
+    and around the two"""
+    cmax = rng.choice([50, 50, 128])
+    cms = rng.choice([2, 3, 4, 5, 6, 7, 8, 9, 10, 16, 23, 31, 0])
+    rec = rng.choice([3, 5, 6, 7, 9, 10, 12, 23, 31, 100, 2, 4])
+    nodes = two_nodes(cmax=cmax, smax=rng.choice([cmax, 1476]), cwin=rng.choice([2, 8]), swin=rng.choice([2, 8]), retries=1, cmaxsegs=cms, smaxsegs=64,
+                      know=True, apduTimeout=1000, segTimeout=500, appTimeout=1000)
+    nodes[1]['know'][1]['maxSegs'] = rec
+    code_limit = 0 if not cms else max([g for g in (2, 4, 8, 16, 32, 64) if g <= cms] or [0])
+    around = sorted(set([code_limit, rec, cms]))
+    nseg = max(1, rng.choice([a + d for a in around for d in (-1, 0, 1, 2)]))
+    plen = min(nseg, 34) * cmax - rng.randrange(0, cmax - 1)
+    req = {'t': 0, 'src': 1, 'dst': 2, 'len': rng.choice([3, 20]), 'service': 12, 'resp': ['complex', max(1, plen)], 'resp_delay': 0}
+    return {'nodes': nodes, 'requests': [req]}
+
+
+def gen_bidir_records(rng):
+    """the IUT (node 1) holds an I-Am record of a peer (node 2) that can transmit but not receive segments; the peer sends the
+    IUT a SEGMENTED request (its SA bit is clear), then the IUT's application sends that peer a request larger than the
+    peer's maximum APDU.  The peer never sets SA, so ServerSSM.idle leaves the record alone (the upgrade it performs on SA = 1
+    is not modelled); the record is tried with all four segmentation values"""
+    pmax = rng.choice([50, 128])
+    rec = rng.choice(SEG_NAMES + ['segmentedTransmit', 'segmentedTransmit'])
+    iut = node_cfg(1, maxApdu=rng.choice([206, 1476]), seg='segmentedBoth', retries=1, apduTimeout=1000, segTimeout=500, window=2, appTimeout=1000)
+    peer = node_cfg(2, maxApdu=pmax, seg=rng.choice(['segmentedTransmit', 'segmentedTransmit', 'noSegmentation']), retries=1, apduTimeout=1000,
+                    segTimeout=500, window=2, appTimeout=1000)
+    spec = {'nodes': [iut, peer], 'requests': []}
+    if rng.random() < 0.6:
+        iut['know'] = {2: {'maxApdu': pmax, 'seg': rec, 'maxSegs': rng.choice([None, 4, 64])}}
+    else:
+        spec['iam'] = [{'t': rng.choice([0, 250]), 'node': 1, 'peer': 2, 'maxApdu': pmax, 'seg': rec}]
+    if rng.random() < 0.5:
+        peer['know'] = {1: {'maxApdu': iut['maxApdu'], 'seg': 'segmentedBoth', 'maxSegs': None}}
+    for k in range(rng.choice([1, 1, 2])):
+        spec['requests'].append({'t': 500 + 125 * k, 'src': 2, 'dst': 1, 'len': rng.choice([pmax + 3, 3 * pmax + 1, 10, iut['maxApdu'] + 30]),
+                                 'service': 12, 'resp': rng.choice([['simple'], ['complex', 5]]), 'resp_delay': 0})
+    for k in range(rng.choice([1, 2])):
+        spec['requests'].append({'t': 2000 + 1500 * k, 'src': 1, 'dst': 2, 'len': rng.choice([pmax + 7, 2 * pmax + 1, pmax - 10, 4 * pmax]),
+                                 'service': 12, 'resp': ['simple'], 'resp_delay': 0})
+    return spec
 
 
 def gen_capability(rng, big=True):
@@ -1722,8 +1857,8 @@ def coq_spec(spec):
     reqs = []
     for r in spec.get('requests') or []:
         resp = r.get('resp', ['simple'])
-        reqs.append('mkReq %d %d %d %d %d %s %d %d %s' % (
-            r.get('t', 0), r['src'], r['dst'], r['len'], r.get('service', 12), _z(-1 if r.get('invoke') is None else r['invoke']),
+        reqs.append('mkReq %s %d %d %d %d %s %d %d %s' % (
+            _z(r.get('t', 0)), r['src'], r['dst'], r['len'], r.get('service', 12), _z(-1 if r.get('invoke') is None else r['invoke']),
             RESP_KIND[resp[0]], resp[1] if len(resp) > 1 else 0, _z(r.get('resp_delay', 0))))
     faults = ['(%d, [%s])' % (int(k), ';'.join(str(d) for d in v)) for k, v in sorted((spec.get('faults') or {}).items(), key=lambda kv: int(kv[0]))]
     sil = spec.get('silence')
@@ -1731,6 +1866,11 @@ def coq_spec(spec):
     for i in spec.get('inject') or []:
         injs.append('mkInj %s %d %d %d %s' % (_z(i['after']) if 'after' in i else '(-1)', i.get('t', 0), i['src'], i['dst'],
                                               coq_apdu_from_octets(inject_octets(i['frame']))))
+    if spec.get('chains'):
+        iams = ['mkIam %d %d %d %d %d' % (i['t'], i['node'], i['peer'], i['maxApdu'], SEG_NAMES.index(i['seg'])) for i in spec.get('iam') or []]
+        chains = ['(%d, %d, %d, %d)' % (c['node'], c['peer'], c['invoke'], c['no']) for c in spec['chains']]
+        return 'run_spec_c [%s] [%s] [%s] %s [%s] [%s] [%s]' % (';'.join(nodes), ';'.join(reqs), ';'.join(faults), _z(-1 if sil is None else sil),
+                                                               ';'.join(injs), ';'.join(iams), ';'.join(chains))
     if spec.get('iam'):
         iams = ['mkIam %d %d %d %d %d' % (i['t'], i['node'], i['peer'], i['maxApdu'], SEG_NAMES.index(i['seg'])) for i in spec['iam']]
         return 'run_spec_x [%s] [%s] [%s] %s [%s] [%s]' % (';'.join(nodes), ';'.join(reqs), ';'.join(faults), _z(-1 if sil is None else sil),
